@@ -59,11 +59,17 @@ pub struct Cfg {
 	pub buffer_capacity: u32,
 	/// 0 = both, 1 = http only, 2 = ws only
 	pub mode: u8,
+	/// WebSocket ping: (interval, inactive limit) in seconds of the (paused) clock
+	#[serde(default)]
+	pub ping: Option<(u64, u64)>,
+	/// build every per-connection service through `TowerServiceBuilder::set_http_middleware` (identity middleware)
+	#[serde(default)]
+	pub via_set_http_middleware: bool,
 }
 
 impl Default for Cfg {
 	fn default() -> Self {
-		Cfg { max_request: 10 * 1024 * 1024, max_response: 10 * 1024 * 1024, max_connections: 100, max_subs: 1024, batch: BatchCfg::Unlimited, buffer_capacity: 1024, mode: 0 }
+		Cfg { max_request: 10 * 1024 * 1024, max_response: 10 * 1024 * 1024, max_connections: 100, max_subs: 1024, batch: BatchCfg::Unlimited, buffer_capacity: 1024, mode: 0, ping: None, via_set_http_middleware: false }
 	}
 }
 
@@ -498,6 +504,7 @@ pub struct Fixture {
 	pub handle: ServerHandle,
 	pub cfg: Cfg,
 	pub server_cfg: ServerConfig,
+	pub lowlevel_conn_ids: AtomicU64,
 }
 
 pub type Svc = jsonrpsee_server::TowerService<Identity, Identity>;
@@ -515,6 +522,9 @@ pub fn server_config(cfg: &Cfg, string_ids: bool) -> ServerConfig {
 			BatchCfg::Limit(n) => BatchRequestConfig::Limit(n),
 			BatchCfg::Unlimited => BatchRequestConfig::Unlimited,
 		});
+	if let Some((interval, inactive)) = cfg.ping {
+		b = b.enable_ws_ping(jsonrpsee_server::PingConfig::new().ping_interval(Duration::from_secs(interval)).inactive_limit(Duration::from_secs(inactive)).max_failures(1));
+	}
 	match cfg.mode {
 		1 => b = b.http_only(),
 		2 => b = b.ws_only(),
@@ -534,11 +544,16 @@ impl Fixture {
 		let server_cfg = server_config(&cfg, string_ids);
 		let builder = jsonrpsee_server::Server::builder().set_config(server_cfg.clone()).to_service_builder();
 		let (stop, handle) = stop_channel();
-		Fixture { ctx, methods, builder, stop, handle, cfg, server_cfg }
+		Fixture { ctx, methods, builder, stop, handle, cfg, server_cfg, lowlevel_conn_ids: AtomicU64::new(0) }
 	}
 
 	pub fn service(&self) -> Svc {
-		self.builder.clone().build(self.methods.clone(), self.stop.clone())
+		if self.cfg.via_set_http_middleware {
+			// the idiom of examples/jsonrpsee_as_service.rs: per-connection clone of a shared builder, middleware set on the clone
+			self.builder.clone().set_http_middleware(tower::ServiceBuilder::new()).build(self.methods.clone(), self.stop.clone())
+		} else {
+			self.builder.clone().build(self.methods.clone(), self.stop.clone())
+		}
 	}
 
 	/// One HTTP request straight into the tower service, the body delivered as the given frames.
@@ -616,6 +631,7 @@ impl Fixture {
 		let methods = self.methods.clone();
 		let server_cfg = self.server_cfg.clone();
 		let guard = ConnectionGuard::new(self.cfg.max_connections as usize);
+		let conn_id = self.lowlevel_conn_ids.fetch_add(1, Ordering::SeqCst) as u32 + 500;
 		let svc = tower::service_fn(move |req: ::http::Request<hyper::body::Incoming>| {
 			let methods = methods.clone();
 			let server_cfg = server_cfg.clone();
@@ -625,7 +641,7 @@ impl Fixture {
 				let Some(permit) = guard.try_acquire() else {
 					return Ok::<_, Infallible>(jsonrpsee_server::http::response::too_many_requests());
 				};
-				let conn = ConnectionState::new(stop, 0, permit);
+				let conn = ConnectionState::new(stop, conn_id, permit);
 				if ws::is_upgrade_request(&req) {
 					match ws::connect(req, server_cfg, methods, conn, RpcServiceBuilder::new()).await {
 						Ok((rp, conn_fut)) => {
